@@ -150,3 +150,24 @@ func containsUnknown(p string) bool {
 	}
 	return false
 }
+
+// TimeAfter normalises the two spellings of "later is after earlier": later.After(earlier) and earlier.Before(later).
+func TimeAfter(c ssa.CallInstruction) (later, earlier ssa.Value, ok bool) {
+	switch CalleeName(c) {
+	case "time.Time.After":
+		return Arg(c, 0), Arg(c, 1), true
+	case "time.Time.Before":
+		return Arg(c, 1), Arg(c, 0), true
+	}
+	return nil, nil, false
+}
+
+// CondTimeAfter: the condition is later.After(earlier) / earlier.Before(later).
+func CondTimeAfter(cond ssa.Value) (call *ssa.Call, later, earlier ssa.Value, ok bool) {
+	c, is := CondCall(cond, "time.Time.After", "time.Time.Before")
+	if !is {
+		return nil, nil, nil, false
+	}
+	l, e, _ := TimeAfter(c)
+	return c, l, e, true
+}
